@@ -214,6 +214,41 @@ def run(ctx):
                  'the thread starts although interval or max_missed is '
                  'falsy', ctx.loc(stf))
 
+    # ---- R5 heartbeats are reported exactly while the action runs ---------------------
+    r5 = ctx.rule('R5', 'an action is registered with the heartbeat sender '
+                  'before it runs and removed on every exit', 'PAIR')
+    ra = prog.func('mistral.executors.default_executor.DefaultExecutor.'
+                   'run_action')
+    okp = False
+    for t in ast.walk(ra.node):
+        if isinstance(t, ast.Try) and t.finalbody:
+            adds = [x for b in t.body for x in ast.walk(b)
+                    if isinstance(x, ast.Call) and U.call_name(x) ==
+                    'add_action']
+            runs = [x for b in t.body for x in ast.walk(b)
+                    if isinstance(x, ast.Call) and U.call_name(x) ==
+                    '_do_run_action']
+            rem = [x for b in t.finalbody for x in ast.walk(b)
+                   if isinstance(x, ast.Call) and U.call_name(x) ==
+                   'remove_action']
+            okp = bool(adds) and bool(runs) and bool(rem) and \
+                adds[0].lineno < runs[0].lineno and \
+                norm(adds[0].args[0]) == norm(rem[0].args[0]) == \
+                'action_ex_id'
+    r5.check(okp, ctx.construct(ra), 'the action is not added to the '
+             'heartbeat sender before running and removed in a finally '
+             'block (a finished action would be reported alive for ever, or '
+             'a running one never)', ctx.loc(ra))
+    sl = prog.func('mistral.services.action_heartbeat_sender._loop')
+    r5.check(U.phas(sl.node, '___.process_action_heartbeats(___)') or
+             any(isinstance(x, ast.Call) and
+                 U.call_name(x) == 'process_action_heartbeats'
+                 for q2, g in prog.funcs.items()
+                 if q2.startswith('mistral.services.action_heartbeat_sender.')
+                 for x in own_nodes(g.node)),
+             ctx.construct(sl), 'the sender loop no longer reports running '
+             'actions to the engine', ctx.loc(sl))
+
     # ---- R4 integrity check ----------------------------------------------------------
     r4 = ctx.rule('R4', 'the integrity check is guarded, rescheduled and '
                   'recovers stuck tasks through the normal path', 'GD')
